@@ -3,11 +3,11 @@
 C=$1; shift
 WT=/tmp/repo_clean
 [ -d $WT ] || git -C /repo worktree add -q --detach $WT HEAD
-git -C $WT checkout -q -- .
+git -C $WT checkout -q -- . ; git -C $WT checkout -q --detach $(git -C /repo rev-parse HEAD)
 git -C /repo show $C | git -C $WT apply -R || { echo "revert failed"; exit 2; }
 for p in "$@"; do
   VERIF_EVIDENCE_DIR=/tmp/ev_scratch VERIF_REPO=$WT /verif/check $p > /tmp/_try.out 2>&1; rc=$?
   echo "== fix $C reverted, check $p exit=$rc"
   grep -E "^VIOLATION|^ANALYSIS-ERROR|^KNOWN|obligation:" /tmp/_try.out | head -${MAXL:-6}
 done
-git -C $WT checkout -q -- .
+git -C $WT checkout -q -- . ; git -C $WT checkout -q --detach $(git -C /repo rev-parse HEAD)
